@@ -1,12 +1,11 @@
 //@ unit dt_normalize_instant
 //@ props C09
 //@ kind W
-//@ def quick YB=1048576
-//@ def thorough YB=100000000
+//@ def all YB=1073741824
 //@ cbmc all --unwind 3 --unwinding-assertions
 //@ entry h_dt_normalize_instant
-//@ note W: complete over the validated domain of the date/time parsers (what validateDateTime() lets through: month 1..12, 1 <= day <= days of the month, hour 0..24 with 24 only as 24:00, minute 0..59, time zone 00:00..14:00, sign + or -) for every year with |year| <= YB (quick 2^20, thorough 10^8; stated bound, SAT cost of 64-bit division in the day-number specification). On this domain the carry loop runs at most one full iteration: it is unwound 3 times with the unwinding assertion on, which also proves that bound.
-//@ note proved: normalize() preserves the instant -- minutes since the epoch computed from the proleptic Gregorian calendar (spec_days_from_civil, written from the calendar rules) change by exactly the time-zone offset: UTC = local - offset for '+hh:mm', local + offset for '-hh:mm' (XML Schema Part 2, 3.2.7.3); seconds untouched. Year numbering is the plain integer arithmetic of Appendix E (no special case for the missing year 0 of XSD 1.0; see report).
+//@ note W: complete over the validated domain of the date/time parsers (what validateDateTime() lets through: month 1..12, 1 <= day <= days of the month, hour 0..24 with 24 only as 24:00, minute 0..59, time zone 00:00..14:00, sign + or -) for every year with |year| <= 2^30 (year +- 1 must not overflow). On this domain the carry loop runs at most one full iteration: it is unwound 3 times with the unwinding assertion on, which also proves that bound.
+//@ note proved: normalize() preserves the instant -- the result is the local date/time shifted by exactly the time-zone offset -- UTC = local - offset for '+hh:mm', local + offset for '-hh:mm' (XML Schema Part 2, 3.2.7.3) -- stated with the calendar successor/predecessor of a day (spec_next_day / spec_prev_day, written from the calendar rules; |offset| <= 14:00 so at most one day boundary is crossed); seconds untouched. Year numbering is the plain integer arithmetic of Appendix E (no special case for the missing year 0 of XSD 1.0; see report).
 //@ note div() is modelled per ISO C99 7.20.6.2 (spec/gregorian.h)
 #define VERIF_DEFINE_GHOSTS
 #define SPEC_NEED_DIV_MODEL
@@ -49,11 +48,6 @@ sub fQuotient\(temp, 1, 13\) => fQuotient3(temp, 1, 13)
 call fQuotient => fQuotient2
 @*/
 
-static spec_int spec_minutes(int y, int m, int d, int h, int mi)
-{
-  return (spec_days_from_civil(y, m, d) * 24 + h) * 60 + mi;
-}
-
 void h_dt_normalize_instant(void)
 {
   VERIF_INPUT(SELF);
@@ -68,12 +62,17 @@ void h_dt_normalize_instant(void)
   verif_thrown = 0;
   XMLDateTime_normalize();
   VERIF_CANARY("after call");
-  spec_int before = spec_minutes(y, m, d, h, mi);
-  spec_int offset = (spec_int)zh * 60 + zm;
-  spec_int expect = (sign == UTC_POS) ? before - offset : before + offset;
-  __CPROVER_assert(fValue[Month] >= 1 && fValue[Month] <= 12 && fValue[Day] >= 1 && fValue[Day] <= SPEC_MAXDAY_M(fValue[CentYear], fValue[Month])
-                   && fValue[Hour] >= 0 && fValue[Hour] <= 23 && fValue[Minute] >= 0 && fValue[Minute] <= 59, "C09: normalize: fields in range");
-  __CPROVER_assert(spec_minutes(fValue[CentYear], fValue[Month], fValue[Day], fValue[Hour], fValue[Minute]) == expect,
-                   "C09: normalize preserves the instant (UTC = local -/+ time-zone offset)");
+  /* reference: minutes since local midnight shifted by the offset (UTC = local - offset for '+', local + offset for '-');
+     |offset| <= 840 and 0 <= time of day <= 1440, so the UTC instant lies on the previous, the same or the next day */
+  int offset = zh * 60 + zm;
+  int t = h * 60 + mi + ((sign == UTC_POS) ? -offset : offset);
+  spec_date e = { y, m, d };
+  if (t < 0) { e = spec_prev_day(y, m, d); t += 1440; }
+  else if (t >= 1440) { e = spec_next_day(y, m, d); t -= 1440; }
+  __CPROVER_assert(t >= 0 && t < 1440, "C09: (harness) the shifted time lies within one day of the local date");
+  __CPROVER_assert(fValue[CentYear] == e.y && fValue[Month] == e.m && fValue[Day] == e.d,
+                   "C09: normalize preserves the instant: calendar day = local day, its predecessor or successor as the offset requires");
+  __CPROVER_assert(fValue[Hour] * 60 + fValue[Minute] == t && fValue[Hour] >= 0 && fValue[Hour] <= 23 && fValue[Minute] >= 0 && fValue[Minute] <= 59,
+                   "C09: normalize preserves the instant: time of day = local time -/+ offset modulo 24 h");
   __CPROVER_assert(fValue[Second] == s && fValue[utc] == UTC_STD && fTimeZone[hh] == zh && fTimeZone[mm] == zm, "C09: normalize: seconds and zone fields untouched, marked UTC");
 }
